@@ -83,7 +83,7 @@ fn lit_sp<R>(l: &Lit, m: usize, n: usize) -> SpMat<R> where R: Sc + yui::Ring, f
     }
 }
 
-fn perm_of(seed: u32, n: usize) -> Vec<usize> {
+pub fn perm_of(seed: u32, n: usize) -> Vec<usize> {
     // deterministic permutation from a seed (Fisher-Yates with an LCG)
     let mut p: Vec<usize> = (0..n).collect();
     let mut s = seed as u64 | 1;
